@@ -28,6 +28,7 @@ pub fn run(seed: u64, n: usize) -> BulkResult {
     let mut rng = Rng(seed ^ 0xB01C);
     let mut r = BulkResult { ops: vec![], lines: vec![], failures: vec![], docs: 0, docs_with_dups: 0, roundtrips: 0, par_runs: 0, samples: vec![] };
     for case in 0..n {
+        crate::HEARTBEAT.fetch_add(1, std::sync::atomic::Ordering::Relaxed);
         // hasher: all-equal, few bins or spread
         let table: Vec<u64> = match rng.below(3) {
             0 => vec![0; 64],
